@@ -561,6 +561,10 @@ func (x *Exec) callFunc(st *State, call *ast.CallExpr, fn *types.Func, recv *Val
 		return vs
 	}
 	c := x.prog.specs.Contracts[key]
+	if c == nil {
+		// extern contracts are local to the package whose code is being executed
+		c = x.prog.specs.Contracts[x.pkg.PkgPath+"::"+key]
+	}
 	if c != nil && !(x.contract != nil && x.contract.Inlines[c.Local]) {
 		return x.applyContract(st, call, fn, c, recv, args)
 	}
@@ -881,7 +885,14 @@ func (x *Exec) applyContract(st *State, call *ast.CallExpr, fn *types.Func, c *C
 	post := x.specEnv(st, pre, names, c.PkgPath)
 	x.evalLets(post, c)
 	for _, en := range c.Ensures {
-		x.assume(st, post.boolean(en.Expr))
+		if strings.HasPrefix(en.Label, "lemma") {
+			continue // internal proof steps (may mention the callee's locals)
+		}
+		if t, ok := x.tryBoolean(post, en.Expr); ok {
+			x.assume(st, t)
+		} else {
+			x.vc.note("ensures of " + c.Local + " mentioning the callee's locals not available to callers: " + trunc(en.Src, 60))
+		}
 	}
 	x.prog.usedContracts[x.fname+" -> "+c.Key+" ["+c.Kind+"]"] = true
 	return results
@@ -980,4 +991,19 @@ func (x *Exec) ghostVal(st *State, g *GhostVar) Val {
 	st.heap[key] = v
 	x.prog.tmpInit[x][key] = iv
 	return v
+}
+
+// tryBoolean translates a clause; a clause that mentions identifiers unknown in this
+// environment (the callee's locals) is reported as untranslatable instead of failing.
+func (x *Exec) tryBoolean(env *specEnv, e *SExpr) (t string, ok bool) {
+	defer func() {
+		if r := recover(); r != nil {
+			if u, isU := r.(unsupportedErr); isU && strings.Contains(u.msg, "unknown identifier") {
+				t, ok = "", false
+				return
+			}
+			panic(r)
+		}
+	}()
+	return env.boolean(e), true
 }
